@@ -4,15 +4,18 @@
 set -u
 PATCH="$1"; shift
 cd /repo || exit 2
-if ! git apply --check "$PATCH" 2>/dev/null; then
-  if git apply --3way --check "$PATCH" 2>/dev/null; then :; else echo "PATCH DOES NOT APPLY: $PATCH"; exit 3; fi
+if [ -n "$(git status --porcelain --untracked-files=no)" ]; then
+  echo "REPO NOT CLEAN - refusing"; exit 3
 fi
-git apply "$PATCH" || git apply --3way "$PATCH" || exit 3
+if ! git apply --check "$PATCH" 2>/dev/null; then
+  echo "PATCH DOES NOT APPLY (rebase it): $PATCH"; exit 3
+fi
 # evidence written while a seeded change is applied must not survive the test
 EVBAK=$(mktemp -d /tmp/evbak.XXXXXX); cp -a /verif/evidence/*.json "$EVBAK"/ 2>/dev/null
-trap 'git -C /repo checkout -- . ; git -C /repo reset -q; cp -a "$EVBAK"/*.json /verif/evidence/ 2>/dev/null; rm -rf "$EVBAK"' EXIT
+trap 'git -C /repo checkout -f -- . ; git -C /repo reset -q; cp -a "$EVBAK"/*.json /verif/evidence/ 2>/dev/null; rm -rf "$EVBAK"' EXIT INT TERM
+git apply "$PATCH" || exit 3
 cd /verif
 for p in "$@"; do
   out=$(./check "$p" --tier quick 2>&1); rc=$?
-  echo "== $p exit=$rc: $(echo "$out" | grep -E 'VIOLATION|KNOWN' | head -3)"
+  echo "== $p exit=$rc: $(echo "$out" | grep -E 'VIOLATION|KNOWN' | grep -v KNOWN | head -3)"
 done
